@@ -102,14 +102,14 @@ def mk_case(ctx, st, idx, nschemes):
 
 def run(ctx):
     tier = ctx.tier
-    maxops = 2 if tier == 'quick' else 3
+    maxops = 2   # bound of the exhaustive part in both tiers (thorough: more grant sets / org-user pairs / id schemes, deeper simulation)
     # 1. the design: invariants / action property on the model, every action taken (vacuity guard)
-    r = ctx.tlc_must_pass('AuthzSvc', f'AuthzSvc.MC_{tier}.cfg', timeout=1500, coverage=True, workers=8)
+    r = ctx.tlc_must_pass('AuthzSvc', f'AuthzSvc.MC_{tier}.cfg', timeout=2400, coverage=True)
     r.coverage = action_coverage(ctx, r, 'AuthzSvc')
     ctx.check_coverage(r, ACTIONS)
     ctx.extra_cov['action_coverage'] = {a: r.coverage.get(a, 0) for a in ACTIONS}
     # 2. every history of every single-permission caller up to the bound
-    g = ctx.tlc_must_pass('AuthzSvc', f'AuthzSvc.Gen_{tier}.cfg', timeout=1500, dump=True, workers=8)
+    g = ctx.tlc_must_pass('AuthzSvc', f'AuthzSvc.Gen_{tier}.cfg', timeout=2400, dump=True)
     cases = []
     ncallers = set()
     for st in ctx.dump_states(g):
@@ -121,7 +121,7 @@ def run(ctx):
     if not cases:
         raise vlib.Inconclusive('no maximal histories in the dump')
     binary = ctx.go_build('authz')
-    res, lines = ctx.replay(binary, cases, timeout=1500)
+    res, lines = ctx.replay(binary, cases, timeout=2400)
     ctx.absorb(res, lines)
     ctx.exhaustive = True
     ctx.extra_cov['single_permission_callers'] = len(ncallers)
@@ -130,7 +130,7 @@ def run(ctx):
     ncall, nsim, depth = (12, 1500, 6) if tier == 'quick' else (60, 5000, 7)   # nsim is per TLC worker
     callers = sample_callers(ctx.rng, ncall)
     cfg = with_callers(ctx, f'AuthzSvc.Deep_{tier}.cfg', callers)
-    s = ctx.tlc('AuthzSvc', cfg, timeout=1500, simulate={'num': nsim}, depth=depth, workers=1 if tier == 'quick' else 4)
+    s = ctx.tlc('AuthzSvc', cfg, timeout=1500, simulate={'num': nsim}, depth=depth, workers=1 if tier == 'quick' else min(4, vlib.NCPU))
     if s.timed_out or not s.ok:
         raise vlib.Inconclusive('AuthzSvc simulation failed: ' + s.stdout[-1500:])
     seen = set()
@@ -144,7 +144,7 @@ def run(ctx):
         dcases.append(mk_case(ctx, last, len(dcases), 3))
     if not dcases:
         raise vlib.Inconclusive('simulation produced no behaviours')
-    res2, lines2 = ctx.replay(binary, dcases, timeout=1500)
+    res2, lines2 = ctx.replay(binary, dcases, timeout=2400)
     ctx.absorb(res2, lines2)
     ctx.extra_cov['multi_permission_callers'] = len(callers)
     ctx.extra_cov['multi_permission_behaviours_generated'] = nsim
